@@ -215,6 +215,36 @@ func genC16(t *Tape) (*SrvScenario, int) {
 			}
 		}
 	}
+	if !sc.Conns[subject].AbortMid && t.Chance(1, 8) {
+		// The subject sends its requests early: two (or three) in one write, one more a little later. Only frames that are
+		// complete and consistent in length are used (valid, unsupported function, out-of-range), so the stream stays in step;
+		// handlers may fail or panic. Checked on the stream as a whole (who is answered, how often, in which order).
+		sp := &sc.Conns[subject]
+		var keep []SrvReq
+		for _, r := range sp.Reqs {
+			if r.Class == "valid" || r.Class == "unsupported_fc" || r.Class == "out_of_range" {
+				keep = append(keep, r)
+			}
+		}
+		if len(keep) >= 2 {
+			sp.Reqs = keep
+			first := len(keep[0].Frame) + len(keep[1].Frame)
+			rest := 0
+			for _, r := range keep[2:] {
+				rest += len(r.Frame)
+			}
+			sp.Writes, sp.Gaps, sp.Pipelined = []int{first}, []time.Duration{0}, true
+			if rest > 0 {
+				sp.Writes = append(sp.Writes, rest)
+				sp.Gaps = append(sp.Gaps, time.Duration(1+t.Choose(20))*time.Millisecond)
+			}
+			sc.ReadTimeout = []time.Duration{0, time.Millisecond, 20 * time.Millisecond}[t.Choose(3)]
+			sc.ReplyTimeout = 300 * time.Millisecond
+			sc.SharedHandlerErr = t.Choose(2) == 1
+			sc.StatelessDevice = true
+			return sc, subject
+		}
+	}
 	if !sc.Conns[subject].AbortMid && t.Chance(1, 6) {
 		// the subject client stops reading in the middle of one reply: the server's write times out after a partial delivery
 		sc.Conns[subject].StallAtReply = 1 + t.Choose(len(sc.Conns[subject].Reqs))
@@ -290,6 +320,10 @@ func runC16(rc *RunCtx) {
 		} else {
 			rc.Fault("reply_write_timeout", false)
 		}
+	}
+	if subj.Pipelined && !subj.AbortMid {
+		checkPipelinedSubject(rc, &subj, &out.Conns[subject], handled)
+		return
 	}
 	// --- replies on the subject connection, request by request (lock-step) ---
 	co := out.Conns[subject]
@@ -407,4 +441,58 @@ func runC16(rc *RunCtx) {
 				"request %x sent alone is answered %x, as request #%d of its connection %x", trunc(r.Frame, 20), trunc(solo.Conns[0].Received, 24), alone, trunc(inSeq, 24))
 		}
 	}
+}
+
+// checkPipelinedSubject: everything the server sent on a connection whose client sent early is a sequence of whole ADUs,
+// each addressed to one of that connection's requests, none answered twice, in request order; exception replies have the
+// prescribed shape. (Whether every request is answered is C15's business; after a handler panic the connection may end.)
+func checkPipelinedSubject(rc *RunCtx, subj *SrvConnPlan, co *SrvConnOut, handled map[uint16]bool) {
+	frames, rest := SplitTCPStream(co.Received)
+	if len(rest) > 0 {
+		rc.Violate("malformed_adu", "pipelined", "the server's output ends in %d bytes that are no whole ADU: %x", len(rest), trunc(rest, 24))
+	}
+	next := 0
+	for fi, f := range frames {
+		tid, unit, pdu, ok := UnframeTCP(f)
+		if !ok || len(pdu) == 0 {
+			rc.Violate("malformed_adu", "pipelined", "frame #%d of the server's output is not a well-formed ADU: %x", fi, trunc(f, 24))
+			return
+		}
+		k := -1
+		for i, r := range subj.Reqs {
+			if r.TID == tid {
+				k = i
+			}
+		}
+		switch {
+		case k < 0:
+			rc.Violate("wrong_tid", "pipelined|no_such_request", "frame #%d %x carries transaction id %d, which none of the %d requests of this connection has", fi, trunc(f, 16), tid, len(subj.Reqs))
+			return
+		case k < next:
+			rc.Violate("extra_reply", "pipelined", "frame #%d %x answers request #%d (tid %d) again or out of order: requests up to #%d had already been answered", fi, trunc(f, 16), k, tid, next-1)
+			return
+		}
+		r := subj.Reqs[k]
+		next = k + 1
+		sig := fmt.Sprintf("pipelined|req=%s|handler=%s", r.Class, r.Mode)
+		switch {
+		case unit != r.Unit:
+			rc.Violate("wrong_unit", sig, "request #%d has unit %d, reply %x carries unit %d", k, r.Unit, trunc(f, 16), unit)
+		case pdu[0]&0x80 != 0:
+			if len(pdu) != 2 {
+				rc.Violate("wrong_length", sig, "exception reply %x is %d bytes long, not 9", trunc(f, 16), len(f))
+			} else if pdu[0] != r.FC|0x80 {
+				rc.Violate("wrong_function", sig, "request #%d has function %d, exception reply carries function byte %#x", k, r.FC, pdu[0])
+			} else if r.Class == "unsupported_fc" && pdu[1] != 1 {
+				rc.Violate("wrong_code", sig, "unsupported function %d answered with exception code %d, not 01", r.FC, pdu[1])
+			} else if r.Class == "out_of_range" && pdu[1] != 3 && (!handled[r.TID] || r.Mode == HNormal || r.Mode == HSlow) {
+				rc.Violate("wrong_code", sig, "out-of-range request %x answered with exception code %d, not 03", trunc(r.Frame, 16), pdu[1])
+			}
+		case pdu[0] != r.FC:
+			rc.Violate("wrong_function", sig, "request #%d has function %d, reply carries function %d", k, r.FC, pdu[0])
+		case r.Class == "unsupported_fc":
+			rc.Violate("wrong_code", sig, "unsupported function %d answered with a normal response %x", r.FC, trunc(f, 16))
+		}
+	}
+	rc.Probe("pipelined_subject")
 }
